@@ -52,6 +52,30 @@ def state_structs(F):
     names = list(F.indicators())
     if "DataItem" in F.adt_by_short and "DataItem" not in names:
         names.append("DataItem")
+    # ... and every crate type stored inside one of them, at any depth and under any wrapper (Box<[Helper]>, Option<Helper>):
+    # a helper struct is part of the value that is cloned / serialized, whatever it implements itself
+    def crate_adts(ty, out):
+        if not isinstance(ty, dict):
+            return
+        if ty.get("k") == "adt" and ty.get("krate") == F.d["crate"]:
+            out.append(short(ty["path"]))
+        for a in ty.get("args", []) or []:
+            crate_adts(a, out)
+        for key in ("to", "elem", "of"):
+            if isinstance(ty.get(key), dict):
+                crate_adts(ty[key], out)
+        for a in ty.get("elems", []) or []:
+            crate_adts(a, out)
+    work = list(names)
+    while work:
+        n = work.pop()
+        for f in F.struct_fields(n) or []:
+            found = []
+            crate_adts(f["ty"], found)
+            for m in found:
+                if m not in names and m in F.adt_by_short:
+                    names.append(m)
+                    work.append(m)
     return names
 
 
